@@ -962,7 +962,7 @@ func c04GenProgs(args []string) {
 	rng := hx.NewRng(seed)
 	stats := map[string]int{}
 	for i := 0; i < n; i++ {
-		p := c04Generate(rng, stagecmd, dynamic, i%3 == 0)
+		p := c04GenerateOpt(rng, stagecmd, dynamic, i%3 == 0, i%4 == 1)
 		dir := filepath.Join(outdir, fmt.Sprintf("p%04d", i))
 		os.MkdirAll(dir, 0o755)
 		os.WriteFile(filepath.Join(dir, "pipeline.mro"), []byte(p.Mro(stagecmd)), 0o644)
